@@ -28,10 +28,15 @@ Proof.
   split; [discriminate|]. split; intros X; apply H in X; vm_compute in X; discriminate.
 Qed.
 
+(* Needs only C09's SOUNDNESS (whatever strop returns is a valid identifier), not totality: if TokenEncoder.strop raised (for
+   C++ tokens containing "__" its totality rests on C09's named premise cpp_whole_token_premise; for C and Python it is proved
+   unconditionally) nothing would be generated at all; real_strop's fallback branch then merely keeps the DSDL name, which is a
+   valid identifier too.  Hence no C11 real-stropper theorem carries cpp_whole_token_premise. *)
 Lemma real_strop_valid l x : valid_ident x = true -> valid_ident (real_strop l x) = true.
 Proof.
-  intros H. destruct (strop_dsdl_ident_thm l ty_path x H ty_path_not_all) as (t & E & V & _).
-  unfold real_strop. rewrite E. exact V.
+  intros H. assert (Hne : x <> []) by (destruct x; discriminate).
+  unfold real_strop. destruct (strop_lang l ty_path x) as [t| |] eqn:E; try exact H.
+  exact (proj1 (strop_sound_lang l ty_path x t Hne E)).
 Qed.
 
 Lemma digit_ident_char c : 48 <= c <= 57 -> ident_char c = true.
@@ -138,11 +143,13 @@ Section REAL.
     clean_lang l ty_path a = true -> clean_lang l ty_path b = true ->
     (l = LCpp -> has_dunder a = false /\ has_dunder b = false) -> fold l a b -> a = b.
   Proof.
-    intros Ca Cb Hd F. apply (strop_injective_on_clean_thm l ty_path a b ty_path_not_all Ca Cb Hd).
-    pose proof (clean_split l ty_path a Ca) as (Va & _). pose proof (clean_split l ty_path b Cb) as (Vb & _).
-    destruct (strop_dsdl_ident_thm l ty_path a Va ty_path_not_all) as (ta & Ea & _).
-    destruct (strop_dsdl_ident_thm l ty_path b Vb ty_path_not_all) as (tb & Eb & _).
-    unfold fold, real_strop in F. rewrite Ea, Eb in F. rewrite Ea, Eb. congruence.
+    intros Ca Cb Hd F.
+    assert (Id : forall c, clean_lang l ty_path c = true -> (l = LCpp -> has_dunder c = false) -> real_strop l c = c).
+    { intros c Cc Dc. unfold real_strop. destruct l.
+      - change (strop_lang LC) with strop_c. rewrite (strop_id_c_thm ty_path c ty_path_not_all Cc). reflexivity.
+      - change (strop_lang LCpp) with strop_cpp. rewrite (strop_id_cpp_partial_thm ty_path c ty_path_not_all Cc (Dc eq_refl)). reflexivity.
+      - change (strop_lang LPy) with strop_py. rewrite (strop_id_py_thm ty_path c ty_path_not_all Cc). reflexivity. }
+    unfold fold in F. rewrite (Id a Ca (fun E => proj1 (Hd E))), (Id b Cb (fun E => proj2 (Hd E))) in F. exact F.
   Qed.
 
   (* hence: type files of types whose names are all clean are pairwise distinct (C11_path_injective with its hypotheses discharged) *)
@@ -208,6 +215,16 @@ Section PYAGREE.
     destruct (enc_dry_cases [py_rule_all_0; py_rule_all_1] s) as [E|E]; rewrite E; [rewrite E|]; reflexivity.
   Qed.
 
+  (* the whole-token re-verification (fix in /repo): the rules of "all" and of the type; "any" has the "all" rules, "path" none *)
+  Lemma py_full_ok s : full_ok py_uni cfg_py ty_any s = full_ok py_uni cfg_py ty_path s.
+  Proof.
+    unfold full_ok, rules_for.
+    change (lookup (sc_rules cfg_py) ty_all) with (Some [py_rule_all_0; py_rule_all_1]).
+    change (lookup (sc_rules cfg_py) ty_any) with (Some [py_rule_all_0; py_rule_all_1]).
+    change (lookup (sc_rules cfg_py) ty_path) with (@None (list re)).
+    destruct (forallb (fun r => negb (re_test py_uni r s)) [py_rule_all_0; py_rule_all_1]); reflexivity.
+  Qed.
+
   (* no encoding rule matches inside a DSDL name: the non-dry encoding step is the identity for every identifier type *)
   Lemma py_enc_id t k dry : valid_ident t = true -> ENC t k dry = TOk t.
   Proof.
@@ -236,7 +253,7 @@ Section PYAGREE.
     rewrite (py_kw k true). destruct (checked (D KW k ty_path true) (sc_strop_handler cfg_py) k) as [s2| |]; try reflexivity.
     rewrite (py_enc_dry s2). destruct (checked (D ENC s2 ty_path true) (sc_enc_handler cfg_py) s2) as [s3| |]; try reflexivity.
     destruct (sc_reverify cfg_py); [|reflexivity].
-    unfold reverified. rewrite !py_pat by auto. rewrite (py_kw s3 true), (py_enc_dry s3). reflexivity.
+    unfold reverified. rewrite !py_pat by auto. rewrite (py_kw s3 true), (py_enc_dry s3), (py_full_ok s3). reflexivity.
   Qed.
 
   (* hence: the Python package chain of a referenced type (id type "any") is the directory chain of its file (id type "path") *)
